@@ -7,6 +7,7 @@ import (
 	"errors"
 	"fmt"
 	"sort"
+	"strconv"
 	"strings"
 
 	openfgav1 "github.com/openfga/api/proto/openfga/v1"
@@ -27,7 +28,8 @@ type mergeErr struct {
 }
 
 func (e mergeErr) String() string {
-	return fmt.Sprintf("[%s file=%q line=%d col=%d] %s", e.Kind, e.File, e.Line, e.Col, e.Msg)
+	// no fmt: this runs inside simulated tasks (see snapshot in wgsim.go)
+	return "[" + e.Kind + " file=" + strconv.Quote(e.File) + " line=" + strconv.Itoa(e.Line) + " col=" + strconv.Itoa(e.Col) + "] " + e.Msg
 }
 
 type mergeOutcome struct {
@@ -60,7 +62,7 @@ func deliver(wl *wlMerge, order []int) []transformer.ModuleFile {
 	files := make([]transformer.ModuleFile, 0, len(order))
 	for _, i := range order {
 		f := wl.Files[i]
-		files = append(files, transformer.ModuleFile{Name: f.Name, Contents: f.contents()})
+		files = append(files, transformer.ModuleFile{Name: f.deliveredName(), Contents: f.contents()})
 	}
 	return files
 }
@@ -664,6 +666,41 @@ func mergeRunOne(b *BatchResult, prop string, seed, run uint64, nRandom int) {
 		mm, st, _ := c3.check(s.cfg)
 		b.addStats(st, nontriv)
 		report(&w3, s, mm, st)
+	}
+	// two different files delivered under one name (C12 only: what that should
+	// MEAN is not fixed by any statement, so C07's oracle does not apply, but
+	// the outcome must still be the same on every invocation and the verdict
+	// independent of the order)
+	if prop == "C12" && run%5 == 0 && len(wl.Files) >= 2 {
+		var w5 wlMerge
+		bj, _ := json.Marshal(wl)
+		_ = json.Unmarshal(bj, &w5)
+		i, j := r.intn(len(w5.Files)), r.intn(len(w5.Files))
+		if i != j && w5.Files[i].Kind == "module" && w5.Files[j].Kind == "module" {
+			w5.Files[j].DeliverAs = w5.Files[i].Name
+			c5 := newMergeCtx(&w5)
+			for k := 0; k < 3; k++ {
+				s := fam[r.intn(len(fam))]
+				mm, st, _ := c5.check(s.cfg)
+				b.addStats(st, true)
+				report(&w5, s, mm, st)
+			}
+			for k := 0; k < 2; k++ {
+				w6 := w5
+				w6.Variant = "perm"
+				p := r.perm(len(w5.Order))
+				w6.AltOrder = make([]int, len(p))
+				for q, x := range p {
+					w6.AltOrder[q] = w5.Order[x]
+				}
+				c6 := &mergeCtx{wl: &w6, exp: c5.exp, canon: c5.canon}
+				s := fam[r.intn(len(fam))]
+				mm, st, _ := c6.check(s.cfg)
+				b.addStats(st, true)
+				report(&w6, s, mm, st)
+			}
+			b.Probes["same_name_file_sets"]++
+		}
 	}
 	// concurrent merges
 	if run%6 == 0 {
